@@ -301,7 +301,7 @@ func c06GenEntries(w *strings.Builder, r *rng, nc, nd, nf int, tag int, longName
 func c06Gen(w *bufio.Writer, seed int64, tier string) {
 	r := newRng(seed)
 	counts := []int{0, 1, 2, 254, 255, 256, 257, 300, 511, 512, 1000}
-	n := 65
+	n := 120
 	if tier == "thorough" {
 		n = 400
 	}
